@@ -33,6 +33,7 @@ struct G {
   OperandSpec same_kind_gp(const OperandSpec& o) { OperandSpec q = o; q.id = uint32_t(r.below(gp_count())); return q; }
   OperandSpec xmm() { OperandSpec o; o.kind = OpKind::kXmm; o.id = uint32_t(r.below(t == Target::kX86 ? 8 : 16)); return o; }
   OperandSpec ymm() { OperandSpec o; o.kind = OpKind::kYmm; o.id = uint32_t(r.below(t == Target::kX86 ? 8 : 16)); return o; }
+  OperandSpec zmm() { OperandSpec o; o.kind = OpKind::kZmm; o.id = uint32_t(r.below(t == Target::kX86 ? 8 : 32)); return o; }
   OperandSpec imm(int64_t v) { OperandSpec o; o.kind = OpKind::kImm; o.imm = v; return o; }
   OperandSpec label_op(uint32_t idx) { OperandSpec o; o.kind = OpKind::kLabel; o.id = idx; return o; }
 
@@ -102,7 +103,12 @@ struct G {
       case 4: { OperandSpec a = any_gp(); inst(r.pick(alu), {a, same_kind_gp(a)}); break; }
       case 5: { OperandSpec a = any_gp(); inst(r.pick(alu), {a, imm(any_imm32())}); break; }
       case 6: { OperandSpec a = any_gp(); inst(r.pick(alu), {a, mem_op(a.kind == OpKind::kGp64 ? 8 : 4)}); break; }
-      case 7: { OperandSpec a = any_gp(); inst(r.pick(alu), {mem_op(a.kind == OpKind::kGp64 ? 8 : 4), a}); break; }
+      case 7: {
+        OperandSpec a = any_gp(); uint32_t id = r.pick(alu); inst(id, {mem_op(a.kind == OpKind::kGp64 ? 8 : 4), a});
+        // one-shot state: lock prefix (instruction option) on a read-modify-write memory destination
+        if (id != I::kIdCmp && r.chance(1, 3)) p.steps.back().inst_options = uint32_t(InstOptions::kX86_Lock);
+        break;
+      }
       case 8: { OperandSpec a = gp_native(uint32_t(r.below(gp_count()))); OperandSpec m = mem_op(0); if (m.mem.form == 3) m.mem.form = 0; inst(I::kIdLea, {a, m}); break; }
       case 9: { OperandSpec a = any_gp(); inst(I::kIdTest, {a, same_kind_gp(a)}); break; }
       case 10: { inst(r.chance(1, 2) ? I::kIdInc : I::kIdDec, {any_gp()}); break; }
@@ -124,7 +130,17 @@ struct G {
         break;
       }
       case 20: {
-        if (r.chance(1, 2)) inst(I::kIdVaddps, {ymm(), ymm(), ymm()}); else inst(I::kIdVmovups, {ymm(), mem_op(32)});
+        switch (r.below(3)) {
+          case 0: inst(I::kIdVaddps, {ymm(), ymm(), ymm()}); break;
+          case 1: inst(I::kIdVmovups, {ymm(), mem_op(32)}); break;
+          default: {
+            // one-shot state: AVX-512 mask register passed as the extra register, optionally with zeroing
+            inst(r.chance(1, 2) ? I::kIdVaddps : I::kIdVpaddd, {zmm(), zmm(), zmm()});
+            p.steps.back().extra_reg = uint8_t(1 + r.below(7));
+            if (r.chance(1, 3)) p.steps.back().inst_options = uint32_t(InstOptions::kX86_ZMask);
+            break;
+          }
+        }
         break;
       }
       default: {
@@ -263,6 +279,7 @@ static Operand make_operand(const Program& p, const OperandSpec& o, ApplyCtx& ct
     case OpKind::kGp8: return x86::gpb(o.id);
     case OpKind::kXmm: return x86::xmm(o.id);
     case OpKind::kYmm: return x86::ymm(o.id);
+    case OpKind::kZmm: return x86::zmm(o.id);
     case OpKind::kA64X: return a64::x(o.id);
     case OpKind::kA64W: return a64::w(o.id);
     case OpKind::kA64V: return a64::v(o.id);
@@ -301,6 +318,7 @@ Error apply_step(BaseEmitter& e, CodeHolder& code, const Program& p, size_t i, A
       Operand ops[4];
       for (uint8_t k = 0; k < s.nops; k++) ops[k] = make_operand(p, s.ops[k], ctx);
       if (s.inst_options) e.set_inst_options(InstOptions(s.inst_options));
+      if (s.extra_reg) e.set_extra_reg(x86::k(s.extra_reg));
       if (s.inline_comment) e.set_inline_comment(s.text.c_str());
       err = e.emit_op_array(s.inst_id, ops, s.nops);
       break;
